@@ -164,3 +164,26 @@ def run():
                 if len(violations) >= 5:
                     return cases, violations
     return cases, violations
+
+
+def run_known():
+    """a view member that is a public ALIAS of a private function (`pub = _impl`): MethodRegistry.view names the method by
+    the function's __name__, not by the attribute it was found under - the private name answers, the public one does not"""
+    import logging
+    import pjrpc.server
+    logging.getLogger('pjrpc').setLevel(logging.ERROR)
+
+    class V(pjrpc.server.ViewMixin):
+        def _impl(self):
+            return 'impl'
+        pub = _impl
+
+    reg = pjrpc.server.MethodRegistry()
+    reg.view(V)
+    disp = pjrpc.server.Dispatcher()
+    disp.add_methods(*reg.values())
+    private, public = _reached(disp, '_impl'), _reached(disp, 'pub')
+    fails = private != ('error', -32601) or public != ('result', 'impl')
+    return [('view-alias-of-private-member', fails,
+             f"class V(ViewMixin): def _impl(self): ...; pub = _impl -> keys {sorted(reg.keys())}; request '_impl' -> "
+             f"{list(private)}, request 'pub' -> {list(public)}")]
